@@ -179,6 +179,12 @@ pub fn c12_history(cfg: &CardCfg, nops: usize, seed: u64, prop: &str, rep: &mut 
         // most cards really pre-erase what a multiple-block write announces
         let mut st = rig.bus.borrow_mut();
         st.card.honour_pre_erase = (seed ^ cfg.seed) % 4 != 0;
+        // a byte of 0xFF between the stop token and busy; now and then a programming time after the
+        // stop token that is long, but well inside the driver's own write timeout
+        st.card.stop_gap = (seed ^ cfg.seed) % 3 == 0;
+        if (seed ^ cfg.seed) % 5 == 0 {
+            st.card.stop_busy = Some(12_000 + (seed ^ cfg.seed) % 9_000);
+        }
         st.card.erase_value = if (seed ^ cfg.seed) % 8 < 4 { 0xFF } else { 0x00 };
     }
     let case = |extra: &str| J::obj().set("card", cfg.describe()).set("step", extra);
